@@ -5,6 +5,7 @@
     events ([sp = false]): [name] on spans only, [message] on events only, span predicates inside
     [parent] / [ancestor], constants within the range of their Rust type. *)
 From TT Require Import Capture.Predicates Capture.PredicatesProofs.
+From TT Require Import Judge.C18Proofs.
 
 (** Evaluation equals the reference meaning: exact / threshold level, target equal to the path or
     below it at a "::" boundary, field present and matching with strict kinds, message text,
@@ -99,6 +100,24 @@ Proof.
   exact (fun A f l => conj (scan_single_spec f l) (conj (scan_first_spec f l)
           (conj (scan_last_spec f l) (conj (scan_all_spec f l) (scan_none_spec f l))))).
 Qed.
+
+(** the judges of the correspondence run ([Judge/C18.v]) on the model's own answers: within the
+    hypotheses (a predicate the Rust types accept for the kind of item, values in range) an
+    implementation that evaluates, explains and scans as the model does is judged [Agree] *)
+Theorem C18_judge_items_ok_on_model : forall sp items p,
+  judge_items sp items p (map (model_iobs p) items) = Agree \/
+  judge_items sp items p (map (model_iobs p) items) = OutOfScope.
+Proof. exact judge_items_ok_on_model. Qed.
+
+Theorem C18_scanners_are_reference_scanners : forall sp p l with_last,
+  wf_pred sp p = true -> model_sobs p l with_last = ref_sobs p l with_last.
+Proof. exact model_sobs_is_ref_sobs. Qed.
+
+Theorem C18_judge_scan_ok_on_model : forall sp items sel p with_last l,
+  pick items sel = Some l ->
+  judge_scan sp items sel p (model_sobs p l with_last) = Agree \/
+  judge_scan sp items sel p (model_sobs p l with_last) = OutOfScope.
+Proof. exact judge_scan_ok_on_model. Qed.
 
 (** Non-vacuity: an event three levels deep, predicates of every factory, both outcomes. *)
 Local Open Scope string_scope.
